@@ -31,7 +31,7 @@ THOROUGH_ONLY = (
     "urwid/canvas.py:TextCanvas.__init__#two-rows",  # 2775 paths, ~6 min on one core (the one-row instance runs in the quick tier)
 )
 SHARDS.update({
-    "urwid/canvas.py:TextCanvas.__init__#up-to-one-row": (6, 5),
+    "urwid/canvas.py:TextCanvas.__init__#up-to-one-row": (12, 6),
     "urwid/canvas.py:TextCanvas.__init__#two-rows": (16, 8),
     "urwid/widget/columns.py:Columns.column_widths": (16, 12),
     "urwid/vterm.py:TermCanvas.resize": (10, 6),
